@@ -9,7 +9,7 @@ def sh(cmd, cwd=None, timeout=1800):
     return r.returncode, (r.stdout + r.stderr)
 pid = sys.argv[1]
 sid = sys.argv[2] if len(sys.argv) > 2 else pid + "-s1"
-src = "/tmp/seed/" + pid
+src = os.environ.get("SEED_ROOT", "/tmp/seed") + "/" + pid
 dst = "/verif/seeded/" + sid
 rc, out = sh("git status --porcelain --untracked-files=all", cwd=src)
 untracked = [l[3:] for l in out.splitlines() if l.startswith("?? ") and not l[3:].startswith("SEED/")]
